@@ -19,6 +19,22 @@ type FA struct {
 	edgeDom map[*ssa.If][2]map[int]bool
 	exit    map[int]string // block index -> "reject" | "success" | "unknown" for blocks ending in Return/Panic
 	rejOnly map[int]bool   // block can only reach rejecting exits
+	// conditions and guards imported from callees whose failure this function propagates (see imports)
+	imps       []*calleeImport
+	impsDone   bool
+	succConds  []*Expr
+	succDone   bool
+	inProgress bool
+}
+
+// calleeImport: a branch of this function on the (error / bool) result of a static in-repository callee.  What the
+// callee checked before reporting success holds on the success edge; what it rejects, this function rejects.
+type calleeImport struct {
+	If      *ssa.If
+	OkSucc  int // index of the successor taken when the callee succeeded
+	Call    *ssa.Call
+	Callee  *ssa.Function
+	ArgExpr []*Expr
 }
 
 func (p *Program) FA(fn *ssa.Function) *FA {
@@ -154,7 +170,118 @@ func (a *FA) PathConds(b *ssa.BasicBlock) []*Expr {
 			out = append(out, negate(c))
 		}
 	}
+	for _, im := range a.imports() {
+		if a.edgeDom[im.If][im.OkSucc][b.Index] {
+			for _, sc := range a.P.FA(im.Callee).SuccessConds() {
+				out = append(out, substParams(sc, im.ArgExpr))
+			}
+		}
+	}
 	return out
+}
+
+// imports finds the branches on results of in-repository callees (bodies that were not inlined: rule vocabulary).
+func (a *FA) imports() []*calleeImport {
+	if a.impsDone {
+		return a.imps
+	}
+	a.impsDone = true
+	for _, i := range a.ifs {
+		cond, neg := i.Cond, false
+		for {
+			if u, ok := cond.(*ssa.UnOp); ok && u.Op == token.NOT {
+				cond, neg = u.X, !neg
+				continue
+			}
+			break
+		}
+		var v ssa.Value
+		okSucc := -1
+		if bo, ok := cond.(*ssa.BinOp); ok && (bo.Op == token.NEQ || bo.Op == token.EQL) {
+			if isNilConst(bo.Y) {
+				v = bo.X
+			} else if isNilConst(bo.X) {
+				v = bo.Y
+			}
+			if v == nil || !isErrorType(v.Type()) {
+				continue
+			}
+			okSucc = 1 // err != nil: success on the false edge
+			if bo.Op == token.EQL {
+				okSucc = 0
+			}
+		} else if b, isB := cond.Type().Underlying().(*types.Basic); isB && b.Info()&types.IsBoolean != 0 {
+			v = cond
+			okSucc = 0
+		} else {
+			continue
+		}
+		if neg {
+			okSucc = 1 - okSucc
+		}
+		var call *ssa.Call
+		switch t := v.(type) {
+		case *ssa.Call:
+			call = t
+		case *ssa.Extract:
+			call, _ = t.Tuple.(*ssa.Call)
+			if call != nil && t.Index != call.Call.Signature().Results().Len()-1 {
+				call = nil
+			}
+		}
+		if call == nil || call.Call.IsInvoke() {
+			continue
+		}
+		g := call.Call.StaticCallee()
+		if g == nil || !inTeleport(g) || len(g.Blocks) == 0 || g == a.Fn {
+			continue
+		}
+		var args []*Expr
+		for _, x := range call.Call.Args {
+			args = append(args, a.X.E(x))
+		}
+		a.imps = append(a.imps, &calleeImport{If: i, OkSucc: okSucc, Call: call, Callee: g, ArgExpr: args})
+	}
+	return a.imps
+}
+
+// SuccessConds: the conditions that hold on every non-rejecting return of the function, in terms of its parameters.
+func (a *FA) SuccessConds() []*Expr {
+	if a.succDone || a.inProgress {
+		return a.succConds
+	}
+	a.inProgress = true
+	defer func() { a.inProgress = false }()
+	var common map[string]*Expr
+	for _, r := range a.NonRejectReturns() {
+		cur := map[string]*Expr{}
+		for _, c := range a.PathConds(r.Block()) {
+			cur[c.String()] = c
+		}
+		if common == nil {
+			common = cur
+			continue
+		}
+		for k := range common {
+			if _, ok := cur[k]; !ok {
+				delete(common, k)
+			}
+		}
+	}
+	var keys []string
+	for k, e := range common {
+		// only conditions over the parameters (and globals) can be carried to the caller
+		local := e.Contains(func(s *Expr) bool { return s.Op == "self" || s.Op == "unknown" })
+		if !local {
+			keys = append(keys, k)
+		}
+	}
+	sort.Strings(keys)
+	for _, k := range keys {
+		a.succConds = append(a.succConds, common[k])
+	}
+	a.succDone = true
+	return a.succConds
 }
 
 func (a *FA) PathCondStrings(b *ssa.BasicBlock) map[string]bool {
@@ -354,6 +481,23 @@ func (a *FA) Guards() []*Guard {
 			}
 		}
 		out = append(out, g)
+	}
+	if !a.inProgress {
+		a.inProgress = true
+		for _, im := range a.imports() {
+			fail := im.If.Block().Succs[1-im.OkSucc]
+			if !a.rejOnly[fail.Index] {
+				continue
+			}
+			for _, cg := range a.P.FA(im.Callee).Guards() {
+				ng := &Guard{If: im.If, Cond: substParams(cg.Cond, im.ArgExpr)}
+				for _, cx := range cg.Ctx {
+					ng.Ctx = append(ng.Ctx, substParams(cx, im.ArgExpr))
+				}
+				out = append(out, ng)
+			}
+		}
+		a.inProgress = false
 	}
 	return out
 }
